@@ -117,3 +117,39 @@ func VP_C11_file_reads_do_not_write() {
 		vp.Cover("read at the end of the file")
 	}
 }
+
+// VP_C11_file_sub_writable: the partition view backend.Sub(New(f, readOnly), off, size) inherits
+// the read-only flag: no writable handle when readOnly, and its reads never write.
+func VP_C11_file_sub_writable() {
+	ro := vp.Bool("readOnly")
+	off := vp.I64("sub.off")
+	vp.Assume(off >= 0)
+	vp.Assume(off <= 1<<40)
+	dev := vpdev.NewMemDev("img", -1)
+	dev.UF = true
+	s := backend.Sub(New(dev, ro), off, 1<<20)
+	vp.NoPanic()
+	buf := make([]byte, 4)
+	_, _ = s.ReadAt(buf, vp.I64("read.off")&0xffff)
+	_, _ = s.Stat()
+	_ = s.Path()
+	vp.Assert(len(dev.Log) == 0, "reads through the view wrote nothing")
+	w, err := s.Writable()
+	vp.AllowPanic()
+	if ro {
+		vp.Assert(err != nil, "view of a read-only backend: Writable() returns an error")
+		vp.Assert(w == nil, "view of a read-only backend: no handle")
+		vp.Assert(errors.Is(err, backend.ErrIncorrectOpenMode), "the error is ErrIncorrectOpenMode")
+		vp.Assert(len(dev.Log) == 0, "nothing was written")
+		vp.Cover("view of a read-only backend refuses")
+	} else {
+		vp.Assert(err == nil, "view of a read-write backend: Writable() succeeds")
+		p := vp.Bytes("data", 2)
+		x := vp.I64("write.off") & 0xffff
+		_, werr := w.WriteAt(p, x)
+		vp.Assert(werr == nil, "write through the view succeeds")
+		vp.Assert(len(dev.Log) == 1, "one write reached the file")
+		vp.Assert(dev.Log[0].Off == off+x, "the view writes at its own offset plus the given one")
+		vp.Cover("view of a read-write backend writes inside the file")
+	}
+}
